@@ -46,7 +46,7 @@ func (w *c19World) value(setting, v string) string {
 			return b
 		case "empty":
 			return ""
-		case "file-missing", "file-broken":
+		case "file-missing", "file-broken", "file-utf16":
 			return a // the value is fine, the file is not
 		case "bad2":
 			// a second malformed form per security-relevant setting
@@ -335,7 +335,7 @@ func runC19(c c19Case, st *hx.Stats) error {
 	}
 	fileState := ""
 	for _, a := range c.Assigns {
-		if a.Value == "file-missing" || a.Value == "file-broken" {
+		if a.Value == "file-missing" || a.Value == "file-broken" || a.Value == "file-utf16" {
 			fileState = a.Value
 		}
 	}
@@ -346,6 +346,15 @@ func runC19(c c19Case, st *hx.Stats) error {
 			// the configuration file that was named does not exist
 		case "file-broken":
 			os.WriteFile(f, []byte("[server\n"+strings.Join(lines, "\n")+"\n"), 0o644) // unclosed section header
+		case "file-utf16":
+			// what a windows editor saves as "Unicode": UTF-16LE with a byte order mark, CRLF, no final line end -
+			// not a text the INI reader understands; its settings must not vanish silently
+			text := "[server]\r\n" + strings.Join(lines, "\r\n")
+			b := []byte{0xFF, 0xFE}
+			for _, r := range text {
+				b = append(b, byte(r), byte(r>>8))
+			}
+			os.WriteFile(f, b, 0o644)
 		default:
 			os.WriteFile(f, []byte("[server]\n"+strings.Join(lines, "\n")+"\n"), 0o644)
 		}
@@ -362,7 +371,7 @@ func runC19(c c19Case, st *hx.Stats) error {
 	anyBad, flagVal := false, ""
 	vals := map[string]bool{}
 	for _, a := range c.Assigns {
-		if a.Value == "bad" || a.Value == "bad2" || a.Value == "empty" || a.Value == "file-missing" || a.Value == "file-broken" {
+		if a.Value == "bad" || a.Value == "bad2" || a.Value == "empty" || a.Value == "file-missing" || a.Value == "file-broken" || a.Value == "file-utf16" {
 			anyBad = true
 		}
 		if a.Channel == "flag" {
@@ -514,6 +523,9 @@ func c19FileCases(yield func(c19Case) bool) {
 	}
 	for _, ch := range []string{"config-flag", "config-env", "cwd-ini", "user-ini", "xdg-ini"} {
 		if !yield(c19Case{Setting: "client-whitelist", Assigns: []c19Assign{{ch, "file-broken"}}}) {
+			return
+		}
+		if !yield(c19Case{Setting: "client-whitelist", Assigns: []c19Assign{{ch, "file-utf16"}}}) {
 			return
 		}
 	}
